@@ -14,6 +14,30 @@ import types
 from harness.drivers.common import read_payload, emit
 
 
+import contextlib
+
+
+@contextlib.contextmanager
+def native_neighbour(U, p):
+    """A default listing is taken (a) next to a compiled extension module lying in the package and (b) right after a
+    listing of the same package that asked for compiled modules too (with_libs=True): neither the file nor the earlier
+    call may show in what the default listing yields (answers depend on the current tree and the arguments only)."""
+    extra = None
+    try:
+        if os.path.isdir(p):
+            extra = os.path.join(p, 'zz_native' + U._platform_pylib_exts()[0])
+            with open(extra, 'w'):
+                pass
+            try:
+                list(U.package_modpaths(p, with_libs=True))
+            except Exception:  # noqa
+                pass
+        yield
+    finally:
+        if extra and os.path.exists(extra):
+            os.unlink(extra)
+
+
 def main():
     payload = read_payload()
     from line_profiler.autoprofile import util_static as U
@@ -209,14 +233,16 @@ def run_scenario(U, kernprof, base, sc):
         elif kind == 'list':
             p = os.path.join(base, *q['path'])
             try:
-                got = [rel(base, x) for x in U.package_modpaths(p)]
+                with native_neighbour(U, p):
+                    got = [rel(base, x) for x in U.package_modpaths(p)]
                 out.append(dict(out=got, err=None))
             except Exception as e:  # noqa
                 out.append(dict(out=None, err=type(e).__name__))
         elif kind == 'listpkg':
             p = os.path.join(base, *q['path'])
             try:
-                got = [rel(base, x) for x in U.package_modpaths(p, with_pkg=True)]
+                with native_neighbour(U, p):
+                    got = [rel(base, x) for x in U.package_modpaths(p, with_pkg=True)]
                 out.append(dict(out=got, err=None))
             except Exception as e:  # noqa
                 out.append(dict(out=None, err=type(e).__name__))
